@@ -2,6 +2,8 @@ package c13
 
 import (
 	"bytes"
+	"crypto/sha256"
+	"encoding/hex"
 	"fmt"
 	"strings"
 	"testing"
@@ -121,6 +123,11 @@ func TestC13_ExceptionalProbe(t *testing.T) {
 			continue
 		}
 		if rep.Known("C13", kfSswuZ) {
+			for _, u := range s.exceptional() {
+				if _, br := s.refMapToCurve(u); strings.HasSuffix(br, ":undefined") {
+					pinF71(t, s, u)
+				}
+			}
 			rep.StillPresent("C13", kfSswuZ, strings.Join(bad, "; "))
 		} else {
 			t.Errorf("%s: the configured SSWU constant Z=%s violates criterion 4 of RFC 9380 6.6.2 and the library returns invalid points at the exceptional inputs: %s",
@@ -128,4 +135,57 @@ func TestC13_ExceptionalProbe(t *testing.T) {
 		}
 	}
 	rep.Exhaustive(T)
+}
+
+// f71Pinned: SHA-256 of "X,Y" (hex coefficient vectors) of MapToG1(u) at the non-zero exceptional
+// inputs u = +-sqrt(-1/Z) of bw6-761 G1, keyed by sgn0(u): the (invalid, but deterministic) points
+// the library returns there, recorded when the finding was listed.
+var f71Pinned = map[string]string{
+	"bw6-761/G1:sgn0=1": "ca2e30d7c5e1cff56f6e7a20161adff16939db30a8ea3c71c08d05adea4b57dc",
+	"bw6-761/G1:sgn0=0": "1790d1e6d16877b1e233f6412e670bbb5449f73a3600f32352f4b7bd920a5236",
+}
+
+// pinF71 asserts that, at an exceptional input u where the RFC map is undefined because the
+// configured Z fails criterion 4, the library behaves exactly as recorded in known finding F71:
+//
+//	u = 0:             MapToCurve(0) = (0,0), MapToG(0) = (0,0) (the point at infinity)
+//	u = +-sqrt(-1/Z):  MapToCurve(u) = (-x1, y) with x1 = B'/(Z A'), y^2 = -g(x1), sgn0(y) = sgn0(u)
+//	                   (what the straight-line code computes when it takes its exceptional path and
+//	                   g(x1) is not a square); MapToG(u) = the pinned point (digest above)
+//
+// and that both calls are deterministic. Any other output is a new deviation and fails.
+func pinF71(t fataler, s *suite, u ref.V) {
+	F := s.F
+	q := s.rawPt(s.callMapToCurve(t, u))
+	p := s.rawPt(s.callMapToG(t, u))
+	q2, p2 := s.rawPt(s.callMapToCurve(t, u)), s.rawPt(s.callMapToG(t, u))
+	if !F.Eq(q.X, q2.X) || !F.Eq(q.Y, q2.Y) || !F.Eq(p.X, p2.X) || !F.Eq(p.Y, p2.Y) {
+		t.Fatalf("%s: MapToCurve/MapToG not deterministic at the exceptional input %s", s.id, vstr(u))
+	}
+	if F.IsZero(u) {
+		if !F.IsZero(q.X) || !F.IsZero(q.Y) || !F.IsZero(p.X) || !F.IsZero(p.Y) {
+			t.Fatalf("%s: known finding %s pins MapToCurve%s(0) = (0,0) and MapToG%s(0) = infinity, library now returns %s and %s",
+				s.id, kfSswuZ, s.n, s.n, s.mapCurve().Str(q), s.g.E.Str(p))
+		}
+		return
+	}
+	A, B, Z := s.sswu.A, s.sswu.B, s.sswu.Z
+	x1 := F.Mul(B, F.Inv(F.Mul(Z, A)))
+	gx1 := F.Add(F.Add(F.Mul(F.Mul(x1, x1), x1), F.Mul(A, x1)), B)
+	wy := F.Sqrt(F.Neg(gx1))
+	if wy == nil {
+		t.Fatalf("HARNESS: %s: -g(B/(ZA)) is not a square; the F71 pin does not apply", s.id)
+	}
+	if ref.Sgn0(F, wy) != ref.Sgn0(F, u) {
+		wy = F.Neg(wy)
+	}
+	if !F.Eq(q.X, F.Neg(x1)) || !F.Eq(q.Y, wy) {
+		t.Fatalf("%s: known finding %s pins MapToCurve%s(+-sqrt(-1/Z)) = (-B/(ZA), y), y^2 = -g(B/(ZA)), sgn0(y) = sgn0(u); library now returns %s",
+			s.id, kfSswuZ, s.n, s.mapCurve().Str(q))
+	}
+	d := sha256.Sum256([]byte(vstr(ref.Red(F, p.X)) + "," + vstr(ref.Red(F, p.Y))))
+	k := fmt.Sprintf("%s:sgn0=%d", s.id, ref.Sgn0(F, u))
+	if want, ok := f71Pinned[k]; !ok || hex.EncodeToString(d[:]) != want {
+		t.Fatalf("%s: known finding %s pins MapToG%s(%s) (digest %s), library now returns %s (digest %x)", s.id, kfSswuZ, s.n, k, want, s.g.E.Str(p), d)
+	}
 }
